@@ -103,9 +103,16 @@ def build_flow(case, cp_root, counter, fault=None):
         return step
 
     def g(rows):
-        for r in rows:
+        for i, r in enumerate(rows):
             r = dict(r)
             r['_g'] = True
+            if fault and fault[0] == 'invalid' and i == fault[1]:
+                # a row that does not fit its declared schema reaches the end of the flow: results() fails on it
+                for k, v in r.items():
+                    if isinstance(v, int) and not isinstance(v, bool):
+                        r[k] = 'certainly not an integer'
+                        counter.invalid = getattr(counter, 'invalid', 0) + 1
+                        break
             yield r
     steps = [Src(desc, tables), f]
     if fault and fault[0] == 'up':
@@ -120,7 +127,9 @@ def build_flow(case, cp_root, counter, fault=None):
 def run_flow(case, cp_root, fault=None):
     c = Counter()
     with quiet():
-        res, dp, _ = build_flow(case, cp_root, c, fault).results(on_error=None)
+        flow = build_flow(case, cp_root, c, fault)
+        # (the terminal validation of results() is part of the run only for the 'invalid row' fault)
+        res, dp, _ = flow.results() if (fault and fault[0] == 'invalid') else flow.results(on_error=None)
     return res, dp.descriptor, c
 
 
@@ -249,6 +258,23 @@ def check(case, ctx):
             raise Violation('checkpoint-committed-although-a-step-failed-while-it-was-written',
                             {'raising_step': 'row function (StopIteration)', 'row': k})
         subkeys.append('xrowfn%d' % k)
+    # a row that does not fit its schema arrives at the end of the flow (first / middle row of the first resource): results()
+    # raises while the checkpoint upstream is still being written - nothing is committed
+    for k in sorted({0, len(pkg[0]['rows']) // 2} & set(range(len(pkg[0]['rows'])))):
+        d = os.path.join(root, 'xinvalid%d' % k)
+        try:
+            _rows, _desc, cnt_ = run_flow(case, d, fault=('invalid', k))
+        except ProcessorError:
+            n_exc += 1
+            if after(d, {'raising_step': 'terminal validation of results()', 'row': k}):
+                raise Violation('checkpoint-committed-although-a-step-failed-while-it-was-written',
+                                {'raising_step': 'terminal validation of results()', 'row': k})
+            subkeys.append('xinvalid%d' % k)
+        except Exception as e:
+            raise Violation('step-exception-not-wrapped', {'type': type(e).__name__})
+        else:
+            if getattr(cnt_, 'invalid', 0):
+                raise Violation('failing-step-yields-successful-run', {'where': 'terminal validation of results()', 'row': k})
     # a step before the checkpoint failing in its own end-of-stream code (after its last resource was passed on)
     d = os.path.join(root, 'xuppkgend')
     try:
